@@ -53,6 +53,13 @@ def gen_case_archive(seed, i):
         members.append({"match": mp, "ident": ident, "scan": G.scan_part(r, len(recs)),
                         "unmatched": r.random() < 0.3})
     method = r.choice(["collect_paths", "fast_forward_paths", "next_paths", "collect_by_line", "fast_forward_by_line", "next_by_line"])
+    if r.random() < 0.15:
+        # the last member rewrites the line in place (replace/append); in a breadth-first run it gets the very list object the
+        # members before it collected, whose data.csv must still hold what *they* collected
+        members.append({"match": r.choice(['replace(1, "***")', 'replace(0, upper(#0)) yes()', 'append("extra", "q") yes()',
+                                            'replace(2, concat("L", line_number()))']),
+                        "ident": "rewriter", "scan": "*", "unmatched": False})
+        method = r.choice(["collect_by_line", "next_by_line", "collect_by_line", "collect_paths"])
     case = {"recs": recs, "members": members, "method": method}
     if i % 5 == 4:
         # the file and the CsvPaths in another dialect
